@@ -5,14 +5,14 @@ d=/verif/seeded/$name; mkdir -p $d
 cp $wt/patch.diff $d/patch.diff; cp $wt/demo.py $d/demo.py
 cd $wt
 with=$(PYTHONPATH=$wt timeout 600 /venv/bin/python demo.py 2>&1 | tail -3; echo "exit=${PIPESTATUS[0]}")
-git stash -q
+git apply -R patch.diff
 without=$(PYTHONPATH=$wt timeout 600 /venv/bin/python demo.py 2>&1 | tail -3; echo "exit=${PIPESTATUS[0]}")
-git stash pop -q
+git apply patch.diff
 python3 - "$prop" "$name" "$needs" "$with" "$without" <<'PY'
 import json,sys
 prop,name,needs,w,wo=sys.argv[1:6]
 json.dump({"property":prop,"name":name,"needs_to_manifest":needs,"demo_with_change":w,"demo_without_change":wo,
-           "how_confirmed":"demo.py run in the sub-agent's scratch worktree with the change applied and with it stashed (tools/keepseed.sh)"},
+           "how_confirmed":"demo.py run in the sub-agent's scratch worktree with the change applied and with it reverted (git apply -R) (tools/keepseed.sh)"},
           open(f"/verif/seeded/{name}/meta.json","w"),indent=1)
 print("WITH:",w[-200:]); print("WITHOUT:",wo[-200:])
 PY
